@@ -11,18 +11,10 @@ from sa.poly import RF
 from sa.selftest import Edit, Variant
 from sa.sym import ClassRef, Cond, Interp, PyCallable, Rec, SymStr, Unknown, explore, method_of, to_rf
 
-EXPLANATION = (
-    "The outline region, caps/joins/dashes geometry and the 0.25-unit stroker resolution are Skia's and are not decided. Decided: (order) in "
-    "_simplify the only stroking of a shape happens on the untransformed absolute path, guarded by stroke != none alone, before "
-    "apply_transform and before clipping; (split bookkeeping, by abstract interpretation of SVG._stroke over symbolic opacities and paints) the "
-    "stroke piece gets opacity*stroke-opacity, the stroke paint as fill, nonzero rules and default stroke fields; the fill piece keeps its "
-    "geometry and fill, gets opacity*fill-opacity and fill-opacity 1; ids are cleared when one shape becomes two; the stroke piece follows the "
-    "fill piece; (tables) line caps and joins map to the same-named Skia enums and unknown keywords raise; (stroke_commands, interpreted for "
-    "literal dash arrays) 'none' -> [], comma/space separated lists, odd-length lists repeated, and each of the eight arguments of "
-    "svg_pathops.stroke receives the field of the same name unmodified; svg_pathops.stroke hands width, cap, join, miter limit, dash array "
-    "and dash offset to Skia in its signature order and converts conics at the tolerance derived from the viewBox."
-)
-ASSUMPTIONS = ["skia-pathops Path.stroke(width, cap, join, miter_limit, dash_array, dash_offset) signature (skia-pathops 0.9 API, trusted)"]
+from sa.texts import T as _T
+
+EXPLANATION = _T["C04"]["explanation"] + " Not decided: " + _T["C04"]["not_decided"] + "."
+ASSUMPTIONS = _T["C04"]["assumptions"]
 P = "C04"
 S = RF.sym
 
